@@ -82,6 +82,13 @@ type supervisor struct {
 	// the drop Warn so a single stall-burst logs once, not once per coalesced notification.
 	lastLoggedDropped uint64
 
+	// pendingSelectLost counts CommitSelectLost commits whose evSelectLost echo run() has not processed yet.
+	// While it is non-zero an OLDER evSelectAccepted echo still sitting in the queue is stale: the peer
+	// pipelined Select.req -> Deselect.req, both committed synchronously on the receive goroutine, and
+	// re-storing Selected now would undo the deselection for good (its own echo is then abandoned by the
+	// NEW-2 guard because it finds Selected).
+	pendingSelectLost atomic.Int32
+
 	// testHookAfterStateLoad, when non-nil, is invoked by step() immediately after it loads state and
 	// before the transition/store — a test seam to deterministically interpose a concurrent
 	// CommitSelected and exercise the evT7Timeout CAS tie. Always nil in production.
@@ -239,12 +246,18 @@ func (s *supervisor) CommitSelected() (committed bool) {
 // tolerating the pre-committed state via the evSelectLost-from-NotSelected table entry). It returns
 // whether THIS call performed the commit; a call when not Selected is a no-op returning false.
 func (s *supervisor) CommitSelectLost() (committed bool) {
+	// Announce the deselection BEFORE the CAS so that run() can never see the new state without the
+	// announcement; withdrawn if the CAS loses.
+	s.pendingSelectLost.Add(1)
+
 	if s.state.CompareAndSwap(uint32(SelectedState), uint32(NotSelectedState)) {
 		vgate("sup.commit.cas")
 		s.inject(evSelectLost)
 
 		return true
 	}
+
+	s.pendingSelectLost.Add(-1)
 
 	return false
 }
@@ -293,6 +306,22 @@ func (s *supervisor) step(ev fsmEvent) {
 		return
 	}
 
+	// An evSelectLost that is the echo of a CommitSelectLost retires that commit's announcement (an
+	// evSelectLost injected directly, without a commit, finds the counter at zero and leaves it there).
+	staleSelect := false
+	switch ev { //nolint:exhaustive // only the two select echoes matter here
+	case evSelectLost:
+		for {
+			n := s.pendingSelectLost.Load()
+			if n <= 0 || s.pendingSelectLost.CompareAndSwap(n, n-1) {
+				break
+			}
+		}
+	case evSelectAccepted:
+		staleSelect = s.pendingSelectLost.Load() > 0
+	default:
+	}
+
 	cur := ConnState(s.state.Load())
 
 	// Test seam (T24b): lets a test deterministically interpose a concurrent CommitSelected between
@@ -328,7 +357,9 @@ func (s *supervisor) step(ev fsmEvent) {
 				if !s.state.CompareAndSwap(uint32(cur), uint32(next)) {
 					return // concurrent commit changed state; the T7 disconnect is stale — abandon it
 				}
-			} else {
+			} else if !staleSelect {
+				// (a stale evSelectAccepted — a later deselection is already committed — must not
+				// re-store Selected; its reaction and notification still run below)
 				s.state.Store(uint32(next))
 			}
 		}
